@@ -20,6 +20,25 @@ ESIZE = {'NM': 4, 'TM': 4, 'MO': 4, 'MOT': 4, 'CO': 4, 'TR': 8, 'int': 4, 'intp'
 LISTED = {'push_back', 'emplace_back', 'reserve', 'resize', 'shrink_to_fit', 'append', 'insert', 'emplace'}
 
 
+def split_params(args):
+    """'(a<b, c>, d)' -> ['a<b, c>', 'd']"""
+    inner = args[1:args.rfind(')')]
+    out, cur, d = [], [], 0
+    for c in inner:
+        if c in '<(':
+            d += 1
+        elif c in '>)':
+            d -= 1
+        if c == ',' and d == 0:
+            out.append(''.join(cur).strip())
+            cur = []
+        else:
+            cur.append(c)
+    if cur:
+        out.append(''.join(cur).strip())
+    return out
+
+
 class StrongRule(AliasRule):
     name = 'R05'
 
@@ -27,6 +46,8 @@ class StrongRule(AliasRule):
         AliasRule.__init__(self, eng, cfg)
         self.judged = 0
         self.cur_f = None
+        self.cur_end0 = None
+        self.sliced_opaque = set()
 
     def init(self, f, eng):
         return None
@@ -71,6 +92,9 @@ class StrongRule(AliasRule):
         if k not in ('call', 'throw') or ev.args is None or ev.callee is None:
             return rs
         name = ev.callee
+        if k == 'call' and self.cur_end0 is not None and self.orc.is_gch(name) and len(ev.args) >= 2 \
+                and ev.args[1] == self.cur_end0 and self.orc.writes_fields.get(name):
+            self.sliced_opaque.add(name)
         kind = self.orc.kind.get(name)
         eff = self.orc.effects.get(name, frozenset())
         th = self.orc.throws.get(name, frozenset())
@@ -133,6 +157,7 @@ def analyse_tu(eng, cfg):
     rule.tracked = ()
     n = 0
     skipped = 0
+    sliced_pub = []
     for f in irrules.gch_roots(eng):
         bn = base_name(f.pretty)
         if not is_public(f) or bn not in LISTED:
@@ -144,9 +169,8 @@ def analyse_tu(eng, cfg):
         seed = None
         if bn in ('insert', 'emplace'):
             # only the single-element overloads, sliced to pos == end()
-            if 'std::initializer_list' in args or args.count('small_vector_iterator') > 1 \
-                    or ('unsigned' in args and bn == 'insert') or 'svp::FwIt' in args or 'svp::RaIt' in args \
-                    or '*, ' in args or 'move_iterator' in args:
+            plist = split_params(args)
+            if bn == 'insert' and (len(plist) != 2 or 'std::initializer_list' in plist[1]):
                 continue
             eng.summary(f.name)
             paths = []
@@ -164,6 +188,41 @@ def analyse_tu(eng, cfg):
             end0 = lin_add(atom(('init', pa)), lin_scale(atom(('init', sa)), ESIZE[cfg.elem]))
             seed = {1: end0}
         n += 1
+        rule.cur_end0 = seed[1] if seed is not None else None
         eng.walk(f, [rule], seed=seed)
+        rule.cur_end0 = None
+    # helpers that a sliced walk reached as *opaque* callees with the position (== end on this
+    # slice) as their raw element-pointer argument are walked on their own with the same slice: a
+    # public entry point that is too large to expand completely would otherwise hide what its
+    # helper does.  (Helpers only reachable mid-sequence are not reached on the slice.)
+    ept = next(iter(rule.elem_ptr_types))
+    nint = 0
+    done = set()
+    while rule.sliced_opaque - done:
+        name = sorted(rule.sliced_opaque - done)[0]
+        done.add(name)
+        f = eng.mod.funcs.get(name)
+        if f is None or len(f.params) < 2:
+            continue
+        ty, nm, at = f.params[1]
+        if ty.strip() != ept or 'dereferenceable' in at:
+            continue
+        paths = []
+        eng.walk(f, (), collect=paths, path_limit=20000)
+        tags = eng.summary_tags.get(f.name, {})
+        pa = sa = None
+        for a, k in tags.items():
+            if a[2] == THIS:
+                if k == 0:
+                    pa = a
+                elif k == 2:
+                    sa = a
+        if pa is None or sa is None:
+            continue
+        end0 = lin_add(atom(('init', pa)), lin_scale(atom(('init', sa)), ESIZE[cfg.elem]))
+        nint += 1
+        rule.cur_end0 = end0
+        eng.walk(f, [rule], seed={1: end0})
+    rule.cur_end0 = None
     return {'reports': list(rule.reports.values()), 'entry_points': n, 'paths': rule.judged,
-            'single_pass_skipped': skipped}
+            'single_pass_skipped': skipped, 'sliced_helpers': nint}
